@@ -66,11 +66,16 @@ fn interpreter(script: usize, step: usize, ctx: *mut ()) {
         0 => suspender.suspend_with(s.y),
         1 => suspender.until_with(s.y, s.ts),
         2 => suspender.cancel(),
-        3 | 4 => {
+        3 | 4 | 6 => {
             let co = Co::current().expect("current coroutine");
             co.syscall(s.y, SyscallName::nanosleep, SyscallState::Executing)
                 .expect("enter syscall state");
-            if s.kind == 3 {
+            if s.kind == 6 {
+                // cancelled while parked in a hooked wait: Syscall(.., Suspend(ts)) and then the cancel signal
+                co.syscall(s.y, SyscallName::nanosleep, SyscallState::Suspend(s.ts))
+                    .expect("syscall suspend");
+                suspender.cancel();
+            } else if s.kind == 3 {
                 // EventLoop::wait_just: mark Suspend(timestamp) then yield with until(timestamp)
                 co.syscall(s.y, SyscallName::nanosleep, SyscallState::Suspend(s.ts))
                     .expect("syscall suspend");
@@ -118,7 +123,7 @@ fn check_result(s: &Step, r: &St) {
             *r == CoroutineState::Syscall(s.y, SyscallName::nanosleep, SyscallState::Suspend(s.ts)),
             "a yield made in a system-call state is reported as that system-call state",
         ),
-        4 => kani::assert(matches!(*r, CoroutineState::Syscall(_, SyscallName::nanosleep, _) | CoroutineState::Cancelled),
+        4 | 6 => kani::assert(matches!(*r, CoroutineState::Syscall(_, SyscallName::nanosleep, _) | CoroutineState::Cancelled),
             "a cancel requested in a system-call state is reported for the coroutine that made it"),
         _ => kani::assert(*r == CoroutineState::Complete(s.val), "the return value is reported as completion"),
     }
@@ -194,6 +199,7 @@ c09_harness!(c09_step_delay, one_step(1));
 c09_harness!(c09_step_cancel, one_step(2));
 c09_harness!(c09_step_delay_in_syscall_state, one_step(3));
 c09_harness!(c09_step_cancel_in_syscall_state, one_step(4));
+c09_harness!(c09_step_cancel_while_parked_in_syscall, one_step(6));
 
 // only steps made in the Running state
 c09_harness!(c09_running_state_requests, sequence(2));
